@@ -42,14 +42,14 @@ UNMODELLED = [
 MANIFEST = {
     "level_text": "Lean theorem `rejected_iff` (all context kinds, all 8 flag sets, all statement/expression trees incl. nested with "
     "blocks, by structural induction): the modelled unitary check rejects a block iff some expression position anywhere in it "
-    "(statement, assigned value, if/while condition, control argument; at any depth) contains a call (at any argument depth) "
+    "(statement, assigned value, assignment target, if/while condition, control argument; at any depth) contains a call (at any argument depth, or inside an index expression of a subscripted place) "
     "passing a qubit-containing argument to a callee lacking a flag required at that position (context flags plus those of "
     "every enclosing with block; barrier/state_result opaque), or where dagger is required a loop / assignment / subscripted "
-    "place occurs; plus nested_with_iff, pre_sound, accept_kind_irrelevant, parseKwargs_has, metadata_roundtrip, missing_has.  "
+    "place occurs; plus nested_with_iff, pre_sound, accept_kind_irrelevant, parseKwargs_has, metadata_roundtrip.  "
     "The hand-written model is tied to /repo by running generated Guppy programs through the real check() and comparing verdict "
     "and diagnostic (class + flags/thing) with the model and with an independent flag-subset oracle; `unitary` metadata is read "
     "from lowered FuncDefn nodes (function and with-block functions).",
-    "level_note": "Model is of the repaired checker (fixes 0c2f018 for D7 and 5066299 for nested blocks). Trusted: Lean kernel, the "
+    "level_note": "Model is of the repaired checker (fixes 0c2f018 for D7, 5066299 for nested blocks, 6709ee8 for calls in subscript indices / assignment targets). Trusted: Lean kernel, the "
     "statement in Spec/C24.lean, the printer from abstract programs to Guppy source, sampling of the correspondence (thorough: "
     "exhaustive flag grids). TensorCall, calls inside modifier arguments and the order of multiple diagnostics are not modelled.",
     "technique": "Lean 4 proof over a hand-written model + differential correspondence through real check()/lowering",
@@ -744,7 +744,7 @@ def cases(ctx):
         nrand = 220
     else:
         progs += g + ng
-        nrand = 12000
+        nrand = 8000
         ctx.extra["exhaustive"] = True
         ctx.extra["exhaustive_note"] = (
             f"full grid: {len(contexts())} contexts (10 decorator forms incl. unitary=True, 13 modifier lists) x 8 callee "
@@ -794,7 +794,7 @@ def tie(ctx):
         elif rej:
             # class of the diagnostic must be one the oracle expects
             cls = r.split(":")[0]
-            if "D" in req and reasons & {"loop", "assign"} and not has_nested(p["body"]):
+            if "D" in req and reasons & {"loop", "assign"} and not has_nested(p["body"]) and '"at"' not in json.dumps(p["body"]):
                 ok_cls = cls in ("loop", "assign") and cls in reasons
             else:
                 ok_cls = cls in reasons
